@@ -107,6 +107,7 @@ def ctor(repo: Repo, tier):
                     cc.errors[tag] = ex
             for cls in CLASSES:
                 guarded("C06", cc.check_time_slice, cls)
+                guarded("C06", cc.check_time_slice_functional, cls)
                 guarded("C06", cc.check_time_slice_selfloop, cls)
                 guarded("C09", cc.check_generate_snapshots, cls)
                 guarded("C11", cc.check_node_link_data, cls)
